@@ -12,10 +12,10 @@ import (
 // E7 — event graph of the hand engine, extracted from path summaries.
 
 type outcome struct {
-	Kind  string // "emit", "resume", "wait" (nil return without emit), "refuse" (sentinel error), "fail" (other error), "other"
-	Event string // emit: event constant name
-	Err   string // refuse/fail: sentinel name or callee expression
-	Path  *PathSum   // the path (in function In) on which the outcome is produced
+	Kind  string   // "emit", "resume", "wait" (nil return without emit), "refuse" (sentinel error), "fail" (other error), "other"
+	Event string   // emit: event constant name
+	Err   string   // refuse/fail: sentinel name or callee expression
+	Path  *PathSum // the path (in function In) on which the outcome is produced
 	In    *ssa.Function
 	Chain []*PathSum // caller paths leading here, outermost first (Path is the last element)
 }
@@ -40,20 +40,20 @@ func (o outcome) Events() []*Event {
 }
 
 type EventGraph struct {
-	c        *Ctx
-	EventTyp []namedConst          // declared GameEvent constants
-	ByVal    map[string]string     // "3" -> "GameEvent_AnteRequested"
-	Symbols  map[string]string     // const name -> symbol
-	Handler  map[string]*ssa.Function // event const name -> handler (nil when the case is empty)
-	Cases    map[string]bool       // event const names with a case in the dispatcher
-	MayEmit  map[*ssa.Function]bool
+	c         *Ctx
+	EventTyp  []namedConst             // declared GameEvent constants
+	ByVal     map[string]string        // "3" -> "GameEvent_AnteRequested"
+	Symbols   map[string]string        // const name -> symbol
+	Handler   map[string]*ssa.Function // event const name -> handler (nil when the case is empty)
+	Cases     map[string]bool          // event const names with a case in the dispatcher
+	MayEmit   map[*ssa.Function]bool
 	AlwaysNil map[*ssa.Function]bool
-	Emit     *ssa.Function // EmitEvent
-	Resume   *ssa.Function
-	Trigger  *ssa.Function
-	outcomes map[*ssa.Function][]outcome
-	NonTail  []string
-	problems []string
+	Emit      *ssa.Function // EmitEvent
+	Resume    *ssa.Function
+	Trigger   *ssa.Function
+	outcomes  map[*ssa.Function][]outcome
+	NonTail   []string
+	problems  []string
 }
 
 // alwaysNilFns: functions with a single error result all of whose returns are the nil
